@@ -75,9 +75,11 @@ func init() {
 		Faults: []string{"lock_yield", "probe_lin_checked"},
 	})
 	sim.Register(&sim.Scenario{Prop: "C19", Name: "reprovide-queue", Weight: 1, Run: runC19Reprovide,
-		Real:   []string{"provider/internal/queue.ReprovideQueue (Enqueue/Dequeue/Remove/IsEmpty/Size/Clear)"},
-		Stub:   stub[1:],
-		Faults: []string{"probe_rq_consolidation", "probe_rq_covered", "probe_rq_remove_multi", "probe_lin_checked"},
+		Real: []string{"provider/internal/queue.ReprovideQueue (Enqueue/Dequeue/Remove/IsEmpty/Size/Clear)"},
+		Stub: stub[1:],
+		Faults: []string{"probe_rq_consolidation", "probe_rq_covered", "probe_rq_remove_multi", "probe_lin_checked",
+			"probe_rq_batch_3plus", "probe_rq_batch_duplicate", "probe_rq_batch_covered_by_earlier", "probe_rq_batch_absorbs_earlier",
+			"probe_rq_batch_absorbs_earlier_not_last", "probe_rq_batch_empty_prefix"},
 	})
 }
 
@@ -753,6 +755,10 @@ func (h *c19H) judge(reprov bool) {
 			s.Count("probe_drain_after_error")
 		}
 		nPers := len(st.pers)
+		var batch c19BatchInfo
+		if o.kind == "renq" {
+			batch = c19MBatchInfo(st.ents, o.prefixes)
+		}
 		ok, ns := c19Step(cfg, st, o, &info)
 		if !ok && firstBad < 0 {
 			firstBad, stBefore = i, st
@@ -811,6 +817,24 @@ func (h *c19H) judge(reprov bool) {
 			}
 			if info.covered {
 				s.Count("probe_rq_covered")
+			}
+			if len(o.prefixes) >= 3 {
+				s.Count("probe_rq_batch_3plus")
+			}
+			if batch.dup {
+				s.Count("probe_rq_batch_duplicate")
+			}
+			if batch.coveredByEarlier {
+				s.Count("probe_rq_batch_covered_by_earlier")
+			}
+			if batch.absorbsEarlier {
+				s.Count("probe_rq_batch_absorbs_earlier")
+			}
+			if batch.absorbsEarlierNotLast {
+				s.Count("probe_rq_batch_absorbs_earlier_not_last")
+			}
+			if batch.empty {
+				s.Count("probe_rq_batch_empty_prefix")
 			}
 		case "rrm":
 			if info.multi {
@@ -1193,6 +1217,61 @@ func (h *c19H) finish(reprov, mainDone bool) {
 // ---------------------------------------------------------------------------
 // reprovide queue: same model without keys
 
+// c19DrawBatch draws the arguments of ONE ReprovideQueue.Enqueue call: one
+// prefix in half of the calls, else 2–5. The prefixes of a multi-prefix call
+// are related to each other on purpose: besides independent draws along the hot
+// paths (which overlap often by themselves) a prefix may repeat an earlier
+// prefix of the same call, cover an earlier one (shorter by one or two bits,
+// down to the empty prefix) or lie under an earlier one (longer). "Longer prefix, something
+// else, then the shorter prefix that covers the first" is therefore a common
+// shape, and so are duplicates and batches containing the empty prefix.
+//
+// What such a call means is taken from the documentation of Enqueue / Push,
+// which is written for "the supplied prefix" (singular: no-op when already
+// queued; takes the position of the first superstring and removes all
+// superstrings) on a queue that keeps prefixes "in the order they were
+// enqueued": the variadic call applies that sentence to each argument in
+// argument order, atomically. The model's "renq" step is exactly that.
+func c19DrawBatch(s *sim.Sim, hot []string) []string {
+	if !s.Chance("multi", 1, 2) {
+		return []string{c19DrawPrefix(s, hot, false)}
+	}
+	n := s.Range("nprefix", 2, 5)
+	out := make([]string, 0, n)
+	for len(out) < n {
+		shape := 0
+		if len(out) > 0 {
+			shape = s.Draw("shape", 8)
+		}
+		switch shape {
+		case 4: // the same prefix again
+			out = append(out, out[s.Draw("dup-of", len(out))])
+		case 5: // a longer prefix under an earlier prefix of the call
+			q := out[s.Draw("under", len(out))]
+			for i, m := 0, s.Range("deeper", 1, 2); i < m && len(q) < 8; i++ {
+				q += string(byte('0' + s.Draw("bit", 2)))
+			}
+			out = append(out, q)
+		case 6, 7: // a shorter prefix covering an earlier prefix of the call
+			q := out[s.Draw("cover", len(out))]
+			if q == "" {
+				out = append(out, c19DrawPrefix(s, hot, false))
+				break
+			}
+			l := len(q) - s.Range("shorter-by", 1, 2)
+			if l < 1 && !s.Chance("cover-all", 1, 4) {
+				// the empty prefix would absorb the whole queue: rarely
+				out = append(out, c19DrawPrefix(s, hot, false))
+				break
+			}
+			out = append(out, q[:max(l, 0)])
+		default:
+			out = append(out, c19DrawPrefix(s, hot, false))
+		}
+	}
+	return out
+}
+
 func runC19Reprovide(s *sim.Sim) {
 	s.MaxSteps = 1500
 	s.LockSched = true
@@ -1212,13 +1291,7 @@ func runC19Reprovide(s *sim.Sim) {
 		switch {
 		case k < 50:
 			o.kind = "renq"
-			n := 1
-			if s.Chance("two", 1, 4) {
-				n = 2
-			}
-			for j := 0; j < n; j++ {
-				o.prefixes = append(o.prefixes, c19DrawPrefix(s, hot, false))
-			}
+			o.prefixes = c19DrawBatch(s, hot)
 		case k < 65:
 			o.kind = "rdeq"
 		case k < 80:
